@@ -11,11 +11,20 @@ CONTRACTS = [
     'bitcoinlib.scripts.encode_num[reencode]',
     'bitcoinlib.scripts.decode_num',
     'bitcoinlib.scripts.decode_num[roundtrip]',
-]
+] + ['bitcoinlib.scripts.Script.serialize[cmds-%s]' % (''.join(v) or 'none') for k in range(4) for v in __import__('itertools').product('od', repeat=k)]
 LEVEL = 'proof'
 TRUSTED = []
 EXPLANATION = ''
 LEVEL_TEXT = ('Every listed function of /repo is verified against a protocol-level specification for all inputs (no bound): '
-              'CompactSize encode/decode and var_str. Obligations are generated from the current source on every run.')
+              'CompactSize encode/decode and var_str, data pushes, script numbers (encode, decode, both round trips). Script.serialize is verified '
+              'against the protocol definition for every opcode value and every data item of every length, BOUNDED in the number of commands '
+              '(one case per kind vector of up to 3 commands, loop unrolled). Script.parse_bytesio is OUTSIDE the verifier (object construction, '
+              'recursive sub-script detection): the parse -> items -> serialize round trip is a BOUNDED native stand-in over an enumerated script family '
+              '(bounded/c18_scripts.py), not counted as proved. Obligations are generated from the current source on every run.')
 LEVEL_NOTE = ('Trusted: the pyvc VC generator and its Python semantics (DESIGN §2.10), z3/cvc5, the spec functions in spec/wire.py. '
               'Open finding F-varstr-00 (varstr of a single zero byte) is pinned, not excused.')
+
+
+def extra_checks(tier, seed, opens):
+    from bounded import c18_scripts
+    return [c18_scripts.run(tier, seed, opens)]
